@@ -26,6 +26,21 @@ fn main() {
         "worker" => worker(&args),
         "replay" => replay_file(&args),
         "replay-case" => replay_case(&args),
+        "events" => {
+            let text = if let Some(h) = arg_after(&args, "--hex") { String::from_utf8(verif::engine::unhex(&h)).unwrap() } else { args[2].replace("\\n", "\n").replace("\\t", "\t").replace("\\r", "\r") };
+            install_quiet_panic_hook();
+            for b in [verif::drive::Backend::Str, verif::drive::Backend::Buffered] {
+                let o = verif::drive::parse_with(b, &text);
+                println!("--- {}", b.name());
+                for (e, s) in &o.events {
+                    println!("{:<40} {}:{}:{} .. {}:{}:{}", e.short(), s.start.index, s.start.line, s.start.col, s.end.index, s.end.line, s.end.col);
+                }
+                if let Some(e) = &o.error {
+                    println!("ERROR {}", e.display);
+                }
+            }
+            0
+        }
         "list" => {
             for p in props::all() {
                 println!("{}", p.id());
@@ -289,6 +304,14 @@ fn master(args: &[String]) -> i32 {
     let _ = std::fs::remove_dir_all(&work);
     std::fs::create_dir_all(&work).expect("work dir");
 
+    // replay files of earlier runs of this property are stale
+    if let Ok(rd) = std::fs::read_dir(format!("{root}/replays")) {
+        for e in rd.flatten() {
+            if e.file_name().to_string_lossy().starts_with(&format!("{id}-")) {
+                let _ = std::fs::remove_file(e.path());
+            }
+        }
+    }
     let streams = prop.streams(tier);
     let mut jobs = vec![];
     for s in &streams {
@@ -408,6 +431,39 @@ fn master(args: &[String]) -> i32 {
     }
     violations.extend(agg.failures.iter().cloned());
 
+    // regression tier: every committed witness of this property that is not an open finding
+    // (i.e. repaired defects and hand-kept regressions) must hold again
+    let open_witnesses: HashSet<String> = known.open_for(&id).iter().map(|e| e.witness.clone()).collect();
+    let mut regress = 0u64;
+    if let Ok(rd) = std::fs::read_dir(format!("{root}/findings")) {
+        let mut files: Vec<_> = rd.flatten().map(|e| e.path()).filter(|p| p.extension().map(|x| x == "json").unwrap_or(false)).collect();
+        files.sort();
+        for f in files {
+            let rel = format!("findings/{}", f.file_name().unwrap().to_string_lossy());
+            if open_witnesses.contains(&rel) {
+                continue;
+            }
+            let Some(w) = std::fs::read_to_string(&f).ok().and_then(|t| serde_json::from_str::<Value>(&t).ok()) else { continue };
+            if w["property"].as_str() != Some(id.as_str()) {
+                continue;
+            }
+            regress += 1;
+            if let Some(fl) = isolated(&id, &w["case"], &work, &format!("regress{regress}"), 60) {
+                let is_violation = match fl.category.as_str() {
+                    "hang" => prop.hang_is_violation(),
+                    "abort" => prop.abort_is_violation(),
+                    _ => true,
+                };
+                if is_violation {
+                    violations.push(json!({"stream": format!("regress:{rel}"), "block": 0, "category": fl.category, "detail": fl.detail, "case": w["case"]}));
+                } else {
+                    inconclusive.push(format!("regress {rel}: {} ({})", fl.category, fl.detail));
+                }
+            }
+        }
+    }
+    agg.evaluations += regress;
+
     // de-duplicate by category, keep a few
     let mut seen: BTreeMap<String, usize> = BTreeMap::new();
     let mut reported: Vec<Value> = vec![];
@@ -480,6 +536,7 @@ fn master(args: &[String]) -> i32 {
             "maxima": agg.maxima,
             "known_finding_hits": agg.known_hits,
             "excluded_by_construction": agg.excluded,
+            "regression_witnesses_replayed": regress,
             "inconclusive": inconclusive,
         },
         "assumptions": prop.assumptions(),
